@@ -5,6 +5,7 @@ verus! {
 //@include prelude.rs
 //@include assume_real.rs
 //@include dtype.rs
+//@include dtype_optcast.rs
 //@include lemmas/window.rs
 
 pub type T = ${T};
